@@ -89,6 +89,16 @@ prepared atoms, `keep` = their indices in increasing order (no qubit reordering)
 def darkMps (keep : List Nat) (m : Mat α) : Mat α :=
   fun i j => m (keep.getD i 0) (keep.getD j 0)
 
+/-- The atoms held by the surviving sites of emu-mps, in site order: site `k` holds atom
+`perm[k]` (`optimat.permute_tensor(matrix, qubit_permutation)`, i.e. `M'[i,j] = M[perm[i], perm[j]]`),
+then the sites holding badly prepared atoms are dropped (`matrix[filter, :][:, filter]` with the filter
+permuted into site order). `darkMps (siteAtoms …)` is the matrix emu-mps builds its Hamiltonian from. -/
+def siteAtoms (n : Nat) (perm : Option (List Nat)) (bad : Nat → Bool) : List Nat :=
+  ((List.range n).map (fun k =>
+    match perm with
+    | some p => p.getD k 0
+    | none => k)).filter (fun a => !bad a)
+
 /-- The matrix emu-sv hands to the stepper in step `k` (`dark = none`: `state_prep_error = 0`, no
 wrapper). -/
 def svStepMat (full masked : Mat α) (slmEnd : α) (dark : Option (Nat → Bool)) (g : List α) (k : Nat) :
